@@ -1,7 +1,44 @@
 import Driver.Util
-open Lean
+import Driver.ProgJson
+import Heph.Model.Depth
+import Heph.Generated.Skeleton
+/-! C18 ops:
+  `depth.expr`  {program export: tt, lang, decls, context} → {"r": {"decls": [exprDepth per top-level
+                declaration], "region": [regionDepth per declaration], "max": n}}
+  `depth.bound` {maxDepth, d} → {"r": B Generated.skeleton maxDepth d}  (plus the constants)
+  `depth.erasure` {n0, n, maxComb, first: nat|null} → {"r": erasureTests …} -/
+open Lean Heph Heph.Depth
 namespace Driver.Depth
 
-def handle : Handler := fun _ _ => none
+def ofNat (n : Nat) : Json := Json.num (JsonNumber.fromNat n)
+
+def handle : Handler := fun op j =>
+  match op with
+  | "depth.expr" => some do
+      let (_, p) ← parseProgramObj j
+      let ds := p.decls.map exprDepth
+      let rs := p.decls.map regionDepth
+      pure (res (Json.mkObj [("decls", ofNatList ds), ("region", ofNatList rs),
+                             ("max", ofNat (ds.foldl max 0))]))
+  | "depth.bound" => some do
+      let m ← getNat j "maxDepth"
+      let d ← getNat j "d"
+      pure (Json.mkObj [("r", ofNat (B Generated.skeleton m d)),
+                        ("cutK", ofNat Generated.skeleton.cutK), ("maxCnt", ofNat Generated.skeleton.maxCnt),
+                        ("ok", Json.bool (SkeletonOK Generated.skeleton)),
+                        ("sameDepth", Json.arr (sameDepthSites.map (fun p => Json.arr #[Json.str p.1, Json.str p.2.1, Json.str p.2.2])).toArray)])
+  | "depth.erasure" => some do
+      let n0 ← getNat j "n0"
+      let n ← getNat j "n"
+      let mc ← getNat j "maxComb"
+      let first := match j.getObjValD "first" with
+        | .num k => some k.mantissa.toNat
+        | _ => none
+      pure (res (ofNat (erasureTests n0 n mc first)))
+  | "depth.walk" => some do
+      let n ← getNat j "n"
+      let w := powerWalk (List.range n)
+      pure (res (ofNatListList w))
+  | _ => none
 
 end Driver.Depth
